@@ -15,6 +15,8 @@ boxes themselves, and the "(buffered) time extent" of an interval is the interva
 from __future__ import annotations
 
 import math
+
+import numpy as np
 from fractions import Fraction as F
 
 from soundevent.evaluation import compute_affinity
@@ -23,7 +25,7 @@ from soundevent.geometry import buffer_geometry
 from mc.runner import Out
 from models import affinity as am
 from models import geometry as gm
-from props.common import MAXF, is_rejection, mkgeom
+from props.common import GEOM_CLASSES, MAXF, is_rejection, mkgeom
 
 ID = "C06"
 RULE = (
@@ -245,6 +247,10 @@ def _prepared(gtype, coords, key, tb, fb):
     return p
 
 
+SUBCLASS = {t: type("Tagged" + t, (c,), {"__annotations__": {"note": str}, "note": "", "__module__": __name__})
+            for t, c in GEOM_CLASSES.items()}
+
+
 def _call(G, H, cfg):
     try:
         if cfg is None:
@@ -305,6 +311,17 @@ def run_case(case):
         if dt == 0:
             base = ra
             base_reaches_zero = not (pg[2][0] > 0 and ph[2][0] > 0)
+            # the same two geometries as instances of user subclasses of the geometry classes, and (whole-number buffers) with
+            # the buffers handed over as int / numpy integers: the same values must give the same affinity
+            rs = _call(SUBCLASS[gt](coordinates=gc), SUBCLASS[ht](coordinates=hc), cfg)
+            calls += 1
+            out.expect("same_value_other_representation", rs == ra, list(rs), list(ra), dict(cell, fn=FN, kind="geometry_subclass"), det)
+            if cfg is not None and all(float(x) == int(x) for x in cfg):
+                for conv in (int, np.int64, np.float64):
+                    rn = _call(mkgeom(gt, gc), mkgeom(ht, hc), [conv(cfg[0]), conv(cfg[1])])
+                    calls += 1
+                    out.expect("same_value_other_representation", rn == ra, list(rn), list(ra),
+                               dict(cell, fn=FN, kind="buffers_as_" + conv.__name__), det)
 
         # ---- range (exact)
         if ra[0] != "ok":
